@@ -265,7 +265,8 @@ pub fn isa_str(op: &Op) -> &'static str {
 }
 
 fn name_string(b: &[u8]) -> String {
-    b.iter().map(|x| (0x21 + (x % 0x5e)) as char).collect()
+    // any 7-bit characters, including NUL and control characters (a String the caller may pass)
+    b.iter().map(|x| (x & 0x7f) as char).collect()
 }
 
 fn rimt_maps(ops: &[Op], h: &Handles, base_off: u32, refs: &mut Vec<RefF>) -> Option<Vec<rimt::IdMapping>> {
@@ -560,7 +561,7 @@ fn build_inner(op: &Op, h: &Handles) -> Option<BuiltEntry> {
         }
         K::RiPlatform => {
             let name = name_string(&op.b);
-            aux = name.len() as u64;
+            aux = name.len() as u64 | if name.as_bytes().contains(&0) { 1 << 32 } else { 0 };
             let maps = rimt_maps(&op.s, h, 12 + name.len() as u32 + 1, &mut refs).unwrap();
             subn = maps.len() as u32;
             let maps = if op.arg(1) & 1 != 0 || !maps.is_empty() { Some(maps) } else { None };
